@@ -27,6 +27,7 @@ KERNEL_SRC = [
     "kernel/cubature/empty_cubature.cpp",
 ]
 SIM_SRC = ["sim/sim.cpp", "sim/interpose.cpp"]
+GUARD_SRC = ["sim/guard_alloc.cpp"]   # "guard" flavour only: no sanitizers, guard-zone operator new/delete
 SIMMPI_SRC = ["simmpi/simmpi.cpp"]
 
 # name -> (config, [harness sources], uses_simmpi)
@@ -47,12 +48,13 @@ TARGETS = {
     "c11_mesh":   ("nompi", ["harness/c11_mesh.cpp"], False),
     "c11_pmap":   ("nompi", ["harness/c11_pmap.cpp"], False),
 }
+GUARD_TARGETS = ["c11_mesh.guard", "c11_pmap.guard", "c05_streams.guard"]
 PROPERTY_TARGETS = {
     "C17": ["c17_fence", "c17_asm"],
     "C12": ["c12_domain"],
     "C13": ["c13_scalar", "c13_app", "c13_app_neumann", "c13_q2", "c13_dg", "c13_blocked", "c13_stokes"],
-    "C05": ["c05_streams", "c05_checkpoint"],
-    "C11": ["c11_mesh", "c11_pmap"],
+    "C05": ["c05_streams", "c05_checkpoint", "c05_streams.guard"],
+    "C11": ["c11_mesh", "c11_pmap", "c11_mesh.guard", "c11_pmap.guard"],
     "SIMMPI": ["simmpi_selftest"],
 }
 
@@ -90,7 +92,7 @@ def flags_for(kind, flavour, simmpi):
     if simmpi or kind == "mpi":
         inc.append("-I" + os.path.join(VERIF, "simmpi", "include"))
     inc.append("-I" + REPO)
-    return COMMON + (SAN if flavour == "san" else FAST) + inc
+    return COMMON + (SAN if flavour == "san" else FAST) + (['-DSIM_FLAVOUR_GUARD'] if flavour == 'guard' else []) + inc
 
 
 def compile_obj(src, flags):
@@ -127,8 +129,15 @@ def build(targets, flavours=("san",), jobs=16):
     os.makedirs(os.path.join(BUILD, "bin"), exist_ok=True)
     work = {}   # (src, tuple(flags)) -> future
     plan = []
-    for fl in flavours:
-        for t in targets:
+    # a target may be given as "<name>.<flavour>" (e.g. c11_mesh.guard); plain names use the flavours argument
+    pairs = []
+    for t in targets:
+        if "." in t:
+            pairs.append((t.split(".")[0], t.split(".")[1]))
+        else:
+            pairs += [(t, fl) for fl in flavours]
+    for t, fl in pairs:
+        if True:
             kind, hsrc, simmpi = TARGETS[t]
             missing = [s for s in hsrc if not os.path.exists(os.path.join(VERIF, s))]
             if missing:
@@ -138,6 +147,8 @@ def build(targets, flavours=("san",), jobs=16):
             srcs = [os.path.join(VERIF, s) for s in SIM_SRC + hsrc] + [os.path.join(REPO, s) for s in KERNEL_SRC]
             if simmpi:
                 srcs += [os.path.join(VERIF, s) for s in SIMMPI_SRC]
+            if fl == "guard":
+                srcs += [os.path.join(VERIF, s) for s in GUARD_SRC]
             plan.append((t, fl, flags, srcs))
     rebuilt = 0
     with ThreadPoolExecutor(max_workers=jobs) as ex:
@@ -189,13 +200,13 @@ def main():
     if "--fast" in args:
         flavours = ["san", "fast"]
     if "--all" in args:
-        targets = list(TARGETS)
+        targets = list(TARGETS) + GUARD_TARGETS
     else:
         targets = []
         for a in args:
             if a in PROPERTY_TARGETS:
                 targets += PROPERTY_TARGETS[a]
-            elif a in TARGETS:
+            elif a in TARGETS or a.split(".")[0] in TARGETS:
                 targets.append(a)
     if not targets:
         print("usage: build.py --all | <property id> | <target> [--fast]")
